@@ -113,6 +113,8 @@ class DB:
         self._by_name = {}
         for k, f in self.fns.items():
             self._by_name.setdefault(f.name, []).append(f)
+            if f.hir:
+                annotate_lets(f.hir)
         self._closures_of = {}
         for k, f in self.fns.items():
             if f.info.get("kind") == "Closure":
@@ -173,6 +175,32 @@ class DB:
                 stack.append(c.key)
         return out
 
+    def private_helpers(self, f, depth=2, _seen=None):
+        """workspace functions that `f` calls and that are private plumbing of the same file (extracted helpers): non-public,
+        not a trait-impl method, defined in the same source file; transitively to `depth`"""
+        out = []
+        _seen = _seen if _seen is not None else {f.key}
+        if not f.hir or depth <= 0:
+            return out
+        ffile = (f.info.get("span") or "").split(":")[0]
+        for n, ps in walk(f.hir):
+            if is_call(n):
+                for c in (n.get("resolved"), n.get("callee")):
+                    g = self.fns.get(c) if c else None
+                    if g is not None and g.key not in _seen and g.hir and not g.trait and g.info.get("vis") != "Public" \
+                            and (g.info.get("span") or "").split(":")[0] == ffile:
+                        _seen.add(g.key)
+                        out.append((n, ps, g))
+                        out.extend(self.private_helpers(g, depth - 1, _seen))
+                        break
+        return out
+
+    def walk_deep(self, f, depth=2):
+        """walk f's HIR and the HIR of its private same-file helpers (the call node and its parents are kept as the parent chain)"""
+        yield from walk(f.hir)
+        for call, ps, g in self.private_helpers(f, depth):
+            yield from walk(g.hir, ps + (call,))
+
     def const(self, suffix):
         r = [(k, v) for k, v in self.consts.items() if k.endswith(suffix)]
         if len(r) != 1:
@@ -193,6 +221,60 @@ class DB:
 # ======================================================================================
 # HIR helpers
 # ======================================================================================
+def annotate_lets(root):
+    """give every use of an immutable, initialised `let x = e` binding a reference (`init`) to `e`: named booleans and hoisted
+    sub-expressions can then be looked through by atoms()/eval3()/cmp_atom()/lit_int()/mentions() (never by walk(), so counts and
+    statement order are unaffected)"""
+    inits = {}
+    assigned = set()
+    stack = [root]
+    nodes_ = []
+    while stack:
+        n = stack.pop()
+        if not isinstance(n, dict):
+            continue
+        nodes_.append(n)
+        for v in n.values():
+            if isinstance(v, dict):
+                stack.append(v)
+            elif isinstance(v, list):
+                stack.extend(x for x in v if isinstance(x, dict))
+    for n in nodes_:
+        if n.get("k") == "Let" and "init" in n and "els" not in n:
+            p = n.get("pat") or {}
+            if p.get("k") == "Bind" and "Mut" not in (p.get("mode") or "") and "sub" not in p:
+                inits[p["lid"]] = n["init"]
+        if n.get("k") in ("Assign", "AssignOp"):
+            l = n.get("l") or {}
+            if l.get("k") == "Path" and l.get("res") == "local":
+                assigned.add(l["lid"])
+    for n in nodes_:
+        if n.get("k") == "Path" and n.get("res") == "local" and n.get("lid") in inits and n["lid"] not in assigned:
+            n["let_init"] = inits[n["lid"]]
+
+
+def deref_let(n, depth=6):
+    """the initialiser an immutable let-bound local stands for (transitively), else the node itself"""
+    n = peel(n)
+    while depth > 0 and isinstance(n, dict) and n.get("k") == "Path" and n.get("res") == "local" and "let_init" in n:
+        n = peel(n["let_init"])
+        depth -= 1
+    return n
+
+
+def walk_x(n, parents=(), _depth=0):
+    """like walk(), but also descends into the initialiser of let-bound locals at their use sites (for `does this condition
+    mention X` questions only)"""
+    if not isinstance(n, dict):
+        return
+    yield n, parents
+    p2 = parents + (n,)
+    if n.get("k") == "Path" and "let_init" in n and _depth < 5:
+        yield from walk_x(n["let_init"], p2, _depth + 1)
+        return
+    for c in children(n):
+        yield from walk_x(c, p2, _depth)
+
 CHILD_KEYS = ("f", "recv", "e", "l", "r", "cond", "then", "else", "scrut", "init", "body", "i",
               "base", "expr", "els", "guard", "sub", "pat")
 LIST_KEYS = ("args", "elems", "stmts", "arms", "fields", "pats", "params", "before", "after")
@@ -374,19 +456,24 @@ def lit_int(n):
             return int(n["val"])
         except Exception:
             return None
+    if n.get("k") == "Path" and n.get("res") == "local" and "let_init" in n:
+        return lit_int(n["let_init"])
     return None
 
 
-def render(n, depth=0):
-    """compact pseudo-source rendering for evidence and diagnostics"""
+def render(n, depth=0, x=False):
+    """compact pseudo-source rendering for evidence and diagnostics; with x=True immutable let-bound locals are replaced by
+    their initialisers (shape comparisons are then insensitive to hoisting a sub-expression into a `let`)"""
     if not isinstance(n, dict):
         return "?"
-    if depth > 12:
+    if depth > 14:
         return "…"
     k = n.get("k")
-    r = lambda x: render(x, depth + 1)
+    r = lambda y: render(y, depth + 1, x)
     if k == "Path":
         if n.get("res") == "local":
+            if x and "let_init" in n:
+                return r(n["let_init"])
             return n["name"]
         p = n.get("path") or n.get("res")
         return short_path(p) if p else "?"
@@ -549,6 +636,8 @@ def atoms(cond, positive=True):
     if not isinstance(cond, dict):
         return []
     k = cond.get("k")
+    if k == "Path" and cond.get("res") == "local" and "let_init" in cond and cond.get("ty") == "bool":
+        return atoms(cond["let_init"], positive)
     if k == "Unary" and cond.get("op") == "Not":
         return atoms(cond["e"], not positive)
     if k == "Binary" and cond.get("op") == "And" and positive:
